@@ -76,6 +76,11 @@ def merkleOps : CrdtOps MReg MNode where
   validateOp := merkleValidate
   validateMerge := fun _ _ => "ok"
   eq := some (fun a b => some (decide (a = b)))
+  -- C16 for MerkleReg: Ok iff every child is the hash of a VISIBLE received node (C15.validate_op_ok_iff_spec)
+  vSpec := fun _ K op =>
+    let vis := (MerkleSpec.visibleList mhash K).map mhash
+    let missing := (op.children.l.map (·.1)).filter (fun c => !vis.contains c)
+    "v=" ++ (if missing.isEmpty then "ok" else "missing:[" ++ joinWith "," (missing.map mhName) ++ "]")
   spec := fun _ K =>
     "dag=" ++ showMNodes (mkMap (MerkleSpec.visibleList mhash K)) ++
     " orphans=" ++ showMNodes (mkMap (MerkleSpec.orphanList mhash K)) ++
